@@ -12,7 +12,7 @@ use crate::exch_run::{replay_exchange, run_exchanges};
 use crate::gen::*;
 use crate::refmodel::framing::{decide, Framing};
 
-pub const RULE: &str = "full product: request version {1.0,1.1} x request Connection {absent, close, keep-alive, keep-alive+close as two fields} x request kind {GET, HEAD, POST with Content-Length, POST with Expect, GET carrying an Expect header, GET obtained by following a 302 of a POST} x Expect outcome {100 received / late 100 after give-up, silent server + give-up, refused bare, refused with fields} x response version {1.0,1.1} x status {200,204,205,300,304,404,302 and 399 with Location; 101 and 103 as bare answers to Expect} x response framing {none, Content-Length: 0, Content-Length: 3, chunked} x response Connection {absent, close, keep-alive, keep-alive+close}; every cell explored through the real flow under all mixtures of whole-message and 1-byte arrivals (quick: whole-message arrivals + give-up at every point), verdict read in the Redirect state and in Cleanup; part b: every prefix, cut after the complete Location line, of 3xx heads with Connection / framing fields before and after the Location line (3 methods x 3 statuses x 7 x 4 field sets x every cut): whenever the library accepts such a prefix as a complete response (known finding KF1 of C05) the exchange must end must-close. distinct = distinct (cell, final observation) pairs";
+pub const RULE: &str = "full product: request version {1.0,1.1} x request Connection {absent, close, keep-alive, keep-alive+close as two fields} x request kind {GET, HEAD, POST with Content-Length, POST with Expect, GET carrying an Expect header, GET obtained by following a 302 of a POST} x Expect outcome {100 received / late 100 after give-up, silent server + give-up, refused bare, refused with fields} x response version {1.0,1.1} x status {200,204,205,300,304,404,302 and 399 with Location; 101 and 103 as bare answers to Expect} x response framing {none, Content-Length: 0, Content-Length: 3, chunked} x response Connection {absent, close, keep-alive, keep-alive+close}; every cell explored through the real flow under all mixtures of whole-message and 1-byte arrivals (quick: whole-message arrivals + give-up at every point), verdict read in the Redirect state and in Cleanup; part b: every prefix, cut after the complete Location line, of 3xx heads with Connection / framing fields before and after the Location line (3 methods x 3 statuses x 7 x 4 field sets x every cut): whenever the library accepts such a prefix as a complete response (known finding KF1 of C05) the exchange must end must-close; part c: every cell once more along the canonical schedule with a driver that judges nothing but the final verdict against the ground truth of the server script. distinct = distinct (cell, final observation) pairs";
 
 pub fn build(tier: Tier) -> Vec<Arc<ExchCfg>> {
     let mut out = Vec::new();
@@ -222,17 +222,149 @@ fn lost_boundary_sweep(rep: &mut Report) {
     rep.sample(serde_json::json!({"part": "lost-boundary", "head": "HTTP/1.1 302 Moved\r\nConnection: keep-alive\r\nLocation: /next\r\n | cut here | Content-Length: 0\r\n\r\n", "expect": "if accepted as complete: must-close in Redirect and Cleanup"}));
 }
 
+/// Part c: the verdict along the canonical schedule, judged against the ground truth of the server
+/// script only (no intermediate oracle): robust against deviations elsewhere in the exchange.
+fn canonical_verdict(cfg: &ExchCfg) -> Result<Option<String>, String> {
+    use crate::driver::AnyFlow;
+    let refusal_script = cfg.req.expects_100() && cfg.req.body_due() && cfg.server.first().map(|m| m.msg.status != 100 && m.gate == Gate::AfterHead).unwrap_or(false);
+    let f = match &cfg.prep {
+        Some(p) => p()?,
+        None => cfg.req.build_prepare()?,
+    };
+    let mut sr = f.proceed();
+    let mut buf = vec![0u8; 8192];
+    sr.write(&mut buf).map_err(|e| format!("head: {:?}", e))?;
+    let mut cur = AnyFlow::SendRequest(sr).proceed()?.ok_or("cannot leave SendRequest")?;
+    let stream = &cfg.stream;
+    let mut off = 0usize;
+    let mut guard = 0;
+    #[allow(unused_assignments)]
+    let mut body_state_close = false;
+    let verdicts = loop {
+        guard += 1;
+        if guard > 30 {
+            return Err(format!("stuck in {}", cur.name()));
+        }
+        cur = match cur {
+            AnyFlow::Await100(mut a) => {
+                // what has arrived by now: the first message if the server speaks before the body
+                let first_early = cfg.server.first().map(|m| m.gate == Gate::AfterHead).unwrap_or(false);
+                if first_early {
+                    let end = cfg.layout[0].2;
+                    let n = a.try_read_100(&stream[..end]).map_err(|e| format!("try_read_100: {:?}", e))?;
+                    off += n;
+                }
+                AnyFlow::Await100(a).proceed()?.ok_or("await100")?
+            }
+            AnyFlow::SendBody(mut b) => {
+                let mut sent = 0;
+                while sent < cfg.body.len() {
+                    let (c, _) = b.write(&cfg.body[sent..], &mut buf).map_err(|e| format!("body: {:?}", e))?;
+                    if c == 0 {
+                        return Err("body write makes no progress".into());
+                    }
+                    sent += c;
+                }
+                b.write(&[], &mut buf).map_err(|e| format!("finish: {:?}", e))?;
+                AnyFlow::SendBody(b).proceed()?.ok_or("cannot leave SendBody")?
+            }
+            AnyFlow::RecvResponse(mut r) => {
+                let mut tries = 0;
+                loop {
+                    tries += 1;
+                    if tries > 4 {
+                        return Err("no response".into());
+                    }
+                    let (n, resp) = r.try_response(&stream[off..]).map_err(|e| format!("try_response: {:?}", e))?;
+                    off += n;
+                    if resp.is_some() && r.can_proceed() {
+                        break;
+                    }
+                    if n == 0 {
+                        return Err("response not accepted".into());
+                    }
+                }
+                AnyFlow::RecvResponse(r).proceed()?.ok_or("cannot leave RecvResponse")?
+            }
+            AnyFlow::RecvBody(mut b) => {
+                body_state_close = b.body_mode() == ureq_proto::BodyMode::CloseDelimited;
+                let mut out = vec![0u8; 8192];
+                let mut spins = 0;
+                while !b.can_proceed() || (body_state_close && off < stream.len()) {
+                    spins += 1;
+                    if spins > 50 {
+                        return Err("body never completes".into());
+                    }
+                    let (c, _) = b.read(&stream[off..], &mut out).map_err(|e| format!("read: {:?}", e))?;
+                    off += c;
+                    if c == 0 && !body_state_close {
+                        return Err("body read makes no progress".into());
+                    }
+                    if c == 0 {
+                        break;
+                    }
+                }
+                AnyFlow::RecvBody(b).proceed()?.ok_or("cannot leave RecvBody")?
+            }
+            AnyFlow::Redirect(r) => {
+                let v = (r.must_close_connection(), r.close_reason());
+                let c = r.proceed();
+                break vec![("Redirect", v), ("Cleanup", (c.must_close_connection(), c.close_reason()))];
+            }
+            AnyFlow::Cleanup(c) => break vec![("Cleanup", (c.must_close_connection(), c.close_reason()))],
+            o => return Err(format!("unexpected state {}", o.name())),
+        };
+    };
+    let m = &cfg.server.last().unwrap().msg;
+    let conds = crate::refmodel::closing::Conds {
+        req_http10: cfg.req.version == "1.0",
+        req_conn_close: cfg.req.has_orig("connection", "close"),
+        resp_conn_close: m.has("connection", "close"),
+        not_100: refusal_script,
+        close_delimited: cfg.expected_framing() == Framing::Close,
+    };
+    for (st, (must, reason)) in verdicts {
+        if must != conds.must_close() || reason.is_some() != must || reason.map(|r| !conds.reason_ok(r)).unwrap_or(false) {
+            return Ok(Some(format!("{} state: must_close_connection() = {}, close_reason() = {:?}, but the conditions that actually hold in this exchange are {:?}", st, must, reason, conds)));
+        }
+    }
+    Ok(None)
+}
+
 pub fn run(tier: Tier) -> Report {
     let cfgs = build(tier);
+    // part c on every cell
+    let canon: Vec<(usize, Result<Option<String>, String>)> = {
+        use rayon::prelude::*;
+        cfgs.par_iter().enumerate().map(|(i, c)| (i, match crate::engine::guarded(|| canonical_verdict(c)) { Ok(r) => r, Err(p) => Ok(Some(format!("panic: {}", p))) })).collect()
+    };
     let lim = Limits { max_states: 1_000_000, keep_final_traces: 2, keep_state_traces: 1, check_coreach: true, probe_every: 8, ..Default::default() };
     let mut rep = run_exchanges(cfgs, &lim, false, |c| c.to_json());
     let fs = rep.extra.get("final_states").and_then(|v| v.as_u64()).unwrap_or(0);
     rep.guard("final states reached", fs > 0);
     lost_boundary_sweep(&mut rep);
+    for (i, r) in canon {
+        rep.evaluations += 1;
+        match r {
+            Ok(None) => {}
+            Ok(Some(w)) => rep.violation(crate::engine::Violation { key: if w.starts_with("panic:") { format!("C10:canonical:{}", w.split(" at ").last().unwrap_or("panic")) } else { "C10:verdict:canonical-schedule".into() }, ord: 60_000_000 + i as u64, what: format!("{} [cell #{}]", w, i), replay: serde_json::json!({"kind": "canonical", "cfg_index": i}) }),
+            // the cell could not be driven to its end along the canonical schedule: not this property's failure
+            Err(e) => rep.violation(crate::engine::Violation { key: "C10:harness:canonical".into(), ord: 60_000_000 + i as u64, what: format!("{} [cell #{}]", e, i), replay: serde_json::json!({"kind": "canonical", "cfg_index": i}) }),
+        }
+    }
     rep
 }
 
 pub fn replay(v: &Value) -> Result<Option<String>, String> {
+    if v["kind"].as_str() == Some("canonical") {
+        let tier = if v["tier"].as_str() == Some("thorough") { Tier::Thorough } else { Tier::Quick };
+        let cfgs = build(tier);
+        let i = v["cfg_index"].as_u64().ok_or("cfg_index")? as usize;
+        return match canonical_verdict(cfgs.get(i).ok_or("cfg_index out of range")?) {
+            Ok(x) => Ok(x),
+            Err(e) => Err(e),
+        };
+    }
     if v["kind"].as_str() == Some("lost-boundary") {
         let strs = |x: &Value| -> Vec<String> { x.as_array().map(|a| a.iter().map(|s| s.as_str().unwrap_or("").to_string()).collect()).unwrap_or_default() };
         let b = strs(&v["before"]);
